@@ -5,7 +5,7 @@ From stdpp Require Import gmap.
 From Coq Require Import ZArith Lia.
 From V Require Import Base.Res Base.ResLemmas Sched.LedgerModel Sched.StmtModel Sched.GangModel
   Sched.LedgerInvP Sched.LedgerInv Sched.LedgerLemmasA Sched.LedgerLemmasJob Sched.LedgerLemmasNode
-  Sched.LedgerLemmasSess Sched.LedgerLemmasSk Sched.LedgerLemmasTxn Sched.LedgerLemmasTxnN Sched.LedgerLemmasSound C07.Example C07.Refuted.
+  Sched.LedgerLemmasSess Sched.LedgerLemmasSk Sched.LedgerLemmasTxn Sched.LedgerLemmasTxnN Sched.LedgerLemmasSound C07.Example C07.Refuted C07.Entry.
 Open Scope Z_scope.
 
 Global Instance task_eq_dec : EqDecision task.
@@ -172,7 +172,61 @@ Lemma ex_txn_all_recorded :
 Proof. vm_compute. reflexivity. Qed.
 
 (* the refused-dispatch case of failed_ssn_place_no_trace is not vacuous *)
+Lemma ex_d_sess_ok : sess_ok d_sess.
+Proof. apply sess_ok_of_bools; [vm_compute; reflexivity|vm_compute; reflexivity|reflexivity]. Qed.
+
 Lemma ex_dispatch_refused :
-  placeable d_sess (ex_task 1) 1 /\ snd (ssn_place ex_eps d_sess KAllocate 1 1) = RErr /\
+  sess_ok d_sess /\ placeable d_sess (ex_task 1) 1 /\
+  (forall j, jobs d_sess !! t_job (ex_task 1) = Some j -> idx_set (j_index j) Allocated = ∅) /\
+  snd (ssn_place ex_eps d_sess KAllocate 1 1) = RErr /\
   sess_sameb d_sess (fst (ssn_place ex_eps d_sess KAllocate 1 1)) = true.
-Proof. split; [apply placeableb_sound; vm_compute; reflexivity|]. vm_compute. split; reflexivity. Qed.
+Proof.
+  split; [exact ex_d_sess_ok|]. split; [apply placeableb_sound; vm_compute; reflexivity|].
+  split; [|vm_compute; split; reflexivity].
+  intros j Hj.
+  assert (Hb : match jobs d_sess !! t_job (ex_task 1) with
+               | Some j0 => bool_decide (idx_set (j_index j0) Allocated = ∅)
+               | None => true end = true) by (vm_compute; reflexivity).
+  rewrite Hj in Hb. apply bool_decide_eq_true in Hb. exact Hb.
+Qed.
+
+(* ---------- second audit round ---------- *)
+
+(* base case: the boolean the harness evaluates per generated case (law 112) on the model's own
+   initial session implies the hypotheses of the history theorem *)
+Lemma init_okb_sess_ok s : init_okb s = true -> sess_ok s.
+Proof.
+  unfold init_okb. rewrite !andb_true_iff, bool_decide_eq_true. intros (((H1 & H2) & H3) & H4).
+  apply sess_ok_of_bools; [|exact H3|exact H4].
+  apply andb_true_iff. split; [exact H1|exact H2].
+Qed.
+
+(* the hypotheses of commit_refused_bind_rolls_back are satisfiable *)
+Lemma ex_commit_refused_pre :
+  sess_ok d_sess /\ placeable d_sess (ex_task 1) 1 /\ default [] (stmts d_sess !! 1%positive) = [] /\
+  snd (place_with ex_eps d_sess 1 KAllocate (ex_task 1) 1) = ROk /\ t_id (ex_task 1) ∈ refuse_bind d_sess.
+Proof.
+  split; [exact ex_d_sess_ok|]. split; [apply placeableb_sound; vm_compute; reflexivity|].
+  split; [reflexivity|]. split; [vm_compute; reflexivity|]. apply (bool_decide_unpack _). vm_compute. exact I.
+Qed.
+
+(* the "node refusing the task" disjunct of failed_ssn_place_no_trace_cause is satisfiable: t4 is
+   Pending with an empty NodeName while node 2 still holds a copy of it (the state a failed
+   Session.Allocate of a Pipelined task leaves, finding ...-outside-precondition...) *)
+Definition held_sess : sess := fst (step ex_eps (run ex_eps ex_sess [OPipeline 1 4 2]) (OSsnAllocate 4 2)).
+Lemma ex_node_refuses :
+  sess_ok held_sess /\ heap held_sess !! 4%positive = Some (default (ex_task 4) (heap held_sess !! 4%positive)) /\
+  let p := default (ex_task 4) (heap held_sess !! 4%positive) in
+  t_status p = Pending /\ t_node p = None /\ jknown held_sess p /\
+  exists n e, nodes held_sess !! 2%positive = Some n /\ node_add ex_eps n (placed_obj held_sess KAllocate p 2) = inr e.
+Proof.
+  split; [apply sess_ok_of_bools; [vm_compute; reflexivity|vm_compute; reflexivity|reflexivity]|].
+  split; [apply (bool_decide_unpack _); vm_compute; exact I|]. cbv zeta.
+  split; [vm_compute; reflexivity|]. split; [vm_compute; reflexivity|]. split; [apply jknownb_sound; vm_compute; reflexivity|].
+  assert (Hb : match nodes held_sess !! 2%positive with
+               | Some n => match node_add ex_eps n (placed_obj held_sess KAllocate (default (ex_task 4) (heap held_sess !! 4%positive)) 2) with
+                           | inr _ => true | inl _ => false end
+               | None => false end = true) by (vm_compute; reflexivity).
+  destruct (nodes held_sess !! 2%positive) as [n|]; [|discriminate].
+  destruct (node_add ex_eps n _) as [?|e] eqn:Ea; [discriminate|]. exists n, e. split; [reflexivity|exact Ea].
+Qed.
